@@ -88,10 +88,16 @@ def lua_loader(ctx: "Wtp", modname: str) -> Optional[str]:
                 continue
 
             file_path = LUA_DIR / prefix / path
-            if file_path.is_file():
-                with file_path.open("r", encoding="utf-8") as f:
-                    data = f.read()
-                break
+            try:
+                if file_path.is_file():
+                    with file_path.open("r", encoding="utf-8") as f:
+                        data = f.read()
+                    break
+            except OSError:
+                # The name comes from the page: it can be something the
+                # file system refuses to look up at all (e.g. too long).
+                # Then it is not one of the built-in modules.
+                continue
 
     return data
 
